@@ -16,8 +16,11 @@ Independently of any twin, every change list (also the generic one, also git) is
 the two trees as read through the public Tree API: each side of each entry must describe the item
 as it is in that tree; applying the unfiltered list to the source must give the target, and every
 difference must be reported; a filtered list applied to the source must give a tree in which
-every new parent exists, every really changed entry's new parent is reported or unchanged, and
-every change at or below a named path is present; git: path based, the filtered list must be a
+every new parent exists, every directory above a really changed entry (up to the root, in the target)
+is reported or sits unchanged where the source has it, every change at or below a named path is
+present, and every really changed entry is either selected by the filter (its id, or an id above it,
+sits at a named path in one of the two trees, or shares a path with such an id) or needed by an
+accounted-for entry of the same list (filter:unrelated-entry-reported otherwise); git: path based, the filtered list must be a
 subset of the unfiltered one and complete inside the filter, no file may end up with entries below it.
 (`InterTree` itself has no iter_changes - it raises NotImplementedError - so the generic twin is
 InterInventoryTree; git trees have no twin and are judged by the model oracles only.)
@@ -35,14 +38,17 @@ LEVEL_TEXT = ("on generated histories (renames, reparenting, swaps, kind changes
               "against the trees themselves for sampled filters and all flag settings")
 RULE = ("case = one generated history (2-4 commits + uncommitted delta) in a bzr 2a tree (2 of 3 cases) or a git tree; pairs = (basis, working tree), "
         "(pending-merge parent, working tree), (older revision, working tree), revision-tree pairs incl. reversed and null:; per pair 4 unfiltered flag settings "
-        "+ 6 (quick) / 14 (thorough) filters of <= 3 paths x 2-3 flag settings; one evaluation = one (pair, filter, flags) execution judged; "
+        "+ 6 (quick) / 14 (thorough) filters of <= 3 paths x 2-3 flag settings + targeted filters (a file new in the target; an entry changed in place below a moved/new "
+        "directory; an entry whose sibling directory's name merely starts with its name and has changes below); deltas also move a directory and change files below it in place, "
+        "and create/modify prefix-named sibling directories (p, p0, p-b ...); one evaluation = one (pair, filter, flags) execution judged; "
         "non-trivial = the pair's change set has >= 2 entries incl. a rename/reparent/kind change/removal; distinct = pair kind + change-set shape + filter shape + flags")
 CASES = {"quick": 48, "thorough": 1600}
 BUDGET_S = {"quick": 50, "thorough": 800}
 MIN_EVALS = {"quick": 800, "thorough": 20000}
 FLOORS = {"selected:InterDirStateTree": 15, "selected:InterCHKRevisionTree": 15, "selected:InterGitTrees": 15,
           "diff_dirstate_vs_generic": 150, "diff_chk_vs_generic": 150, "apply_law": 100, "closure_law": 200,
-          "filter_complete": 200, "git_filter_subset": 60, "diff_unversioned": 40}
+          "filter_complete": 200, "git_filter_subset": 60, "diff_unversioned": 40,
+          "closure_ancestors": 200, "filter_selection": 200, "targeted_in_place_below_changed_ancestor": 10, "targeted_prefix_named_sibling": 20}
 ASSUMPTIONS = [
     "the trees as read through iter_entries_by_dir / kind / get_file_text / is_executable / get_symlink_target are taken as the truth the change lists are judged against (C09 checks those readers against the model)",
     "executable flags are compared for files only (the flag of a directory or symlink carries no meaning)",
@@ -51,6 +57,8 @@ ASSUMPTIONS = [
     "entries below a working-tree directory that is missing or no longer a directory on disk are not judged by the model oracle (only by the differential)",
     "with a filter, entries outside the named paths may differ between implementations (counted as noncore-diff); a reported entry landing on a place still occupied "
     "by an unreported source entry is counted (noncore:place-taken-twice), not judged: the statement speaks of parents only",
+    "which ids a filter selects is read generously (named path in either tree, everything below in either tree, ids sharing a path with a selected id, entries on the way "
+    "from the root to a named path); unchanged entries listed outside the selection are not judged",
     "the same entry listed twice in one change list is counted (duplicate-entries), not judged: the lists are compared as sets",
     "PathsNotVersionedError: only the class is compared, not the list of paths in the message",
 ]
@@ -323,8 +331,11 @@ def _judge_bzr(ctx, S, T, res, pk, spec, flags, fail, thirds=None):
     ctx.count("filter_selection")
     bad = _unrelated(spec, S, T, changes)
     if bad:
-        fail("filter:unrelated-entry-reported:%s" % _why_unrelated(bad[0], spec, S, T, changes, thirds), "%r is reported although the filter does not select it (neither it nor an ancestor sits at a named path in either tree "
-             "or shares a path with such an entry) and no reported entry needs it (not a target ancestor, not the source occupant of a reported path, not a child of a directory that went away)" % (
+        why = [_why_unrelated(c, spec, S, T, changes, thirds) for c in bad]
+        n = next((k for k, y in enumerate(why) if y != "no-relation"), 0)  # (the entries dragged in by an unrelated entry have no relation of their own)
+        bad = [bad[n]]
+        fail("filter:unrelated-entry-reported:%s" % why[n], "%r is reported although the filter does not select it (neither it nor an ancestor sits at a named path in either tree "
+             "or shares a path with such an entry) and no reported entry needs it (not a target ancestor, not the other tree's occupant of a reported path, not a child of a directory that went away)" % (
                  [q for q in bad[0][1]],), bad[0])
         return
     # ---- completeness: everything at or below a named path that differs must be reported
@@ -379,7 +390,8 @@ def _selected_ids(spec, *views):
 def _unrelated(spec, S, T, changes, thirds=()):
     """Really changed entries of a filtered list that nothing accounts for: not selected by the filter and not needed by an
     accounted-for entry of the same list (target ancestor of it; source occupant of its, or of one of its target ancestors',
-    new path; source child of a reported directory that is no directory any more / is gone)."""
+    new path; target occupant of its old path (the path-driven
+    walk of the dirstate looks at a path in both trees); source child of a reported directory that is no directory any more / is gone)."""
     sel = _selected_ids(spec, S, T, *thirds)
     byid = {}
     for c in changes:
@@ -395,9 +407,11 @@ def _unrelated(spec, S, T, changes, thirds=()):
     progress = True
     while pending and progress:
         progress = False
-        anc, newpaths, gone_dirs = set(), set(), set()
+        anc, newpaths, gone_dirs, oldpaths = set(), set(), set(), set()
         for i in ok:
             c = byid[i]
+            if c[1][0] is not None:
+                oldpaths.add(c[1][0])
             if c[6][0] == "directory" and c[6][1] != "directory":
                 gone_dirs.add(i)
             t = T.get(i)
@@ -410,8 +424,9 @@ def _unrelated(spec, S, T, changes, thirds=()):
                 t = T.get(t["parent"])
                 n += 1
         for i in sorted(pending, key=repr):
-            s = S.get(i)
-            if i in anc or (s is not None and (spath.get(s["path"]) == i and s["path"] in newpaths or s["parent"] in gone_dirs)):
+            s, t = S.get(i), T.get(i)
+            if i in anc or (s is not None and (spath.get(s["path"]) == i and s["path"] in newpaths or s["parent"] in gone_dirs)) \
+                    or (t is not None and t["path"] in oldpaths):
                 ok.add(i)
                 pending.discard(i)
                 progress = True
@@ -758,8 +773,112 @@ def _dir_becomes_file_path_reused(ctx, rng, wt, w, counter, log):
     return True
 
 
+def _do(wt, w, op, log):
+    gen.apply_real(wt, op)
+    w.apply(op)
+    log.append(gen.op_json(op))
+
+
+def _live(w, kinds=None):
+    return sorted(i for i, e in w.ents.items() if i != model.ROOT and not e.missing and not e.kc and not gen._under_missing(w, i)
+                  and (kinds is None or e.kind in kinds))
+
+
+def _change_in_place(rng, wt, w, i, log, tag):
+    """Content edit, rename inside the same directory, or exec flip of versioned file i: its parent id stays."""
+    q = w.path(i)
+    r = rng.random()
+    if r < 0.45:
+        op = {"op": "edit", "path": q, "content": gen.edit_content(rng, w.ents[i].content or b"")}
+    elif r < 0.8:
+        d = os.path.dirname(q)
+        dst = next((x for x in ((d + "/" if d else "") + w.ents[i].name + sfx for sfx in (".k2", ".k3", ".k4")) if w.free(x)), None)
+        if dst is None:
+            return
+        op = {"op": "rename", "src": q, "dst": dst}
+    else:
+        op = {"op": "chmod", "path": q, "exec": not w.ents[i].exec}
+    _do(wt, w, op, log)
+
+
+def _dir_moves_entries_below_change_in_place(ctx, rng, wt, w, names, log):
+    """A versioned directory is renamed (or moved) and, in the same delta, versioned files at any depth below it change in
+    place: in the comparison those files keep their parent id while their paths change through the ancestor."""
+    dirs = [i for i in _live(w, ("directory",)) if any(w.ents[c].kind == "file" and not w.ents[c].missing and not w.ents[c].kc
+                                                        and not gen._under_missing(w, c) for c in w.descendants(i))]
+    if not dirs:
+        return False
+    x = rng.choice(dirs)
+    src = w.path(x)
+    parent = os.path.dirname(src)
+    pool = [(parent + "/" if parent else "") + n for n in names.dirs + [w.ents[x].name + ".mv"]]
+    if rng.random() < 0.3:  # into another directory, keeping the name
+        pool = [w.path(d) + "/" + w.ents[x].name for d in _live(w, ("directory",)) if d != x and d not in w.descendants(x)] + pool
+    dst = next((q for q in pool if w.free(q) and not q.startswith(src + "/")), None)
+    if dst is None:
+        return False
+    _do(wt, w, {"op": "rename", "src": src, "dst": dst}, log)
+    below = sorted(c for c in w.descendants(x) if w.ents[c].kind == "file" and not w.ents[c].missing and not w.ents[c].kc and not gen._under_missing(w, c))
+    rng.shuffle(below)
+    for c in below[:rng.randint(1, 2)]:
+        _change_in_place(rng, wt, w, c, log, "below-moved-dir")
+    ctx.hist("shape:dir-moved+in-place-change-below")
+    return True
+
+
+def _prefix_named_sibling(ctx, rng, wt, w, log):
+    """A versioned entry p gets (or has) a sibling DIRECTORY whose name merely starts with p's name (p + '0', p + '-b', ...) with
+    versioned content that changes: 'at or below p' is path containment, not a string prefix."""
+    paths = w.paths()
+    have = []
+    for q, qi in sorted(paths.items()):
+        e = w.ents.get(qi)
+        if not q or e.kind != "directory" or e.missing or e.kc or gen._under_missing(w, qi):
+            continue
+        d = os.path.dirname(q)
+        if any(p != q and p and os.path.dirname(p) == d and q.startswith(p) for p in paths):
+            have.append(qi)
+    if have and rng.random() < 0.7:
+        qi = rng.choice(have)
+        q = w.path(qi)
+        files = sorted(c for c in w.descendants(qi) if w.ents[c].kind == "file" and not w.ents[c].missing and not w.ents[c].kc and not gen._under_missing(w, c))
+        if files and rng.random() < 0.7:
+            _change_in_place(rng, wt, w, rng.choice(files), log, "below-prefix-sibling")
+        else:
+            n = next((x for x in (q + "/" + f for f in ("f1", "f2", "g.txt", "h.c")) if w.free(x)), None)
+            if n is None:
+                return False
+            _do(wt, w, {"op": "mkfile", "path": n, "content": gen.gen_content(rng)}, log)
+            _do(wt, w, {"op": "add", "path": n, "id": w.new_id(os.path.basename(n))}, log)
+        ctx.hist("shape:change-below-prefix-named-sibling")
+        return True
+    cands = [i for i in _live(w) if w.ents[w.ents[i].parent].kind == "directory" or w.ents[i].parent == model.ROOT]
+    rng.shuffle(cands)
+    for i in cands[:4]:
+        p = w.path(i)
+        for sfx in rng.sample(["0", "-b", "b", ".d"], 4):
+            q = p + sfx
+            if not w.free(q):
+                continue
+            _do(wt, w, {"op": "mkdir", "path": q}, log)
+            _do(wt, w, {"op": "mkfile", "path": q + "/f1", "content": gen.gen_content(rng)}, log)
+            _do(wt, w, {"op": "add", "path": q, "id": w.new_id(os.path.basename(q))}, log)
+            _do(wt, w, {"op": "add", "path": q + "/f1", "id": w.new_id("f1")}, log)
+            ctx.hist("shape:prefix-named-sibling-created")
+            return True
+    return False
+
+
 def _delta(ctx, rng, wt, names, nops, weights, log, counter=None):
     w = gen.random_delta(rng, wt, names, nops, weights, log)
+    for prob, step in ((0.45, lambda: _dir_moves_entries_below_change_in_place(ctx, rng, wt, w, names, log)),
+                       (0.45, lambda: _prefix_named_sibling(ctx, rng, wt, w, log))):
+        if rng.random() < prob:
+            try:
+                step()
+            except Exception as e:  # refused by breezy (C09 judges refusals): resync the model and go on
+                log.append({"step-refused": type(e).__name__})
+                w = gen.world_from_tree(wt)
     if counter is not None and rng.random() < 0.4:
         try:
             if _dir_becomes_file_path_reused(ctx, rng, wt, w, counter, log):
@@ -887,6 +1006,60 @@ def _filters(rng, universe, n):
     return out
 
 
+def _differs(s, t):
+    return (s is None or t is None or (s["parent"], s["name"]) != (t["parent"], t["name"]) or s["kind"] != t["kind"] or s["content"] != t["content"]
+            or _x(s["kind"], s["exec"]) != _x(t["kind"], t["exec"]))
+
+
+def _targeted_bzr(ctx, rng, S, T, n):
+    """Filters aimed at the two places where "which entries does a filter bring in" is decided by something other than the
+    named entry itself:
+      * an entry that changed IN PLACE (same parent id: content, name, exec) while a directory above it moved or is new: the
+        filter names only the entry (or its unchanged parent), the changed ancestor has to come from the parent walk;
+      * a named entry with a sibling DIRECTORY whose name merely starts with the entry's name (d1 / d10, c / cd) and with
+        changes below that sibling: path containment is not string prefix."""
+    out = []
+    deep = []
+    for i in set(S) & set(T):
+        s, t = S[i], T[i]
+        if s["parent"] != t["parent"] or t["parent"] is None or not _differs(s, t):
+            continue
+        P, up, n_up = t["parent"], [], 0
+        while P is not None and P in T and n_up < 50:
+            if P not in S or (S[P]["parent"], S[P]["name"]) != (T[P]["parent"], T[P]["name"]):
+                up.append(T[P]["path"])
+            P, n_up = T[P]["parent"], n_up + 1
+        if up:
+            deep.append((t["path"], T[t["parent"]]["path"], up))
+    deep.sort()
+    rng.shuffle(deep)
+    for path, parent, up in deep[:n]:
+        ctx.count("targeted_in_place_below_changed_ancestor")
+        # name the entry, or (when the parent itself kept its place) the parent
+        out.append([parent] if (parent and parent not in up and rng.random() < 0.3) else [path])
+    sib = set()
+    dirs = {}
+    for V in (S, T):
+        for e in V.values():
+            if e["stored_kind"] == "directory" and e["path"]:
+                dirs.setdefault(os.path.dirname(e["path"]), set()).add(e["path"])
+    changed_paths = [e["path"] for i in set(S) | set(T) if _differs(S.get(i), T.get(i)) for e in (S.get(i), T.get(i)) if e is not None]
+    for V in (S, T):
+        for e in V.values():
+            p = e["path"]
+            if not p:
+                continue
+            for q in dirs.get(os.path.dirname(p), ()):
+                if q != p and q.startswith(p) and any(c.startswith(q + "/") for c in changed_paths):
+                    sib.add(p)
+    sib = sorted(sib)
+    rng.shuffle(sib)
+    for p in sib[:n]:
+        ctx.count("targeted_prefix_named_sibling")
+        out.append([p])
+    return out
+
+
 def _flag_sets(rng, n, can_unversioned):
     allf = [{"include_unchanged": iu, "want_unversioned": wu, "require_versioned": rv}
             for iu in (False, True) for wu in ((False, True) if can_unversioned else (False,)) for rv in (False, True)]
@@ -931,6 +1104,10 @@ def _pair(ctx, rng, pk, src, tgt, tgt_is_wt, git, disk, revpair, log, thirds=Non
         ctx.count("targeted_new_file_filter")
         for f in _flag_sets(rng, 2, tgt_is_wt):
             combos.append(([q], f))
+    if not git:
+        for spec in _targeted_bzr(ctx, rng, S, T, 3 if ctx.tier == "quick" else 6):
+            for f in _flag_sets(rng, 2, tgt_is_wt):
+                combos.append((spec, f))
     full_shape = None
     full_cache = {}
     for spec, flags in combos:
